@@ -30,7 +30,7 @@ def ask_side(eng, v):
                sample={'rule': 'transfers', 'request': v, 'expected': [(K(d), K(a), K(t)) for d, a, t in exp]})
         # bookkeeping
         recs = written_record(p, 'ask')
-        eng.ob(len(recs) == 1 and len(p.writes) == 1, PROP, 'one-write', v, '%s: expected exactly one write (the named ask), found %s' % (v, [(w['op'], w['ns']) for w in p.writes]), detail=p.describe())
+        eng.ob(len(recs) == 1 and len(p.writes) == 1, PROP, 'one-write', v, '%s: expected exactly one write (the named ask), found %s' % (v, [(w['op'], w['ns']) for w in p.writes]), where=p, detail=p.describe())
         if len(recs) != 1: continue
         op, key, val, w = recs[0]
         eng.ob(key == M(v, 'id') or key == F(ASK, 'id'), PROP, 'key', v, '%s: writes ask key %s, not the request id' % (v, K(key)), where=w['site'])
@@ -60,12 +60,12 @@ def ask_side(eng, v):
                                '%s: after the operation the recorded approver amount is %s but the remaining size is %s (they must stay equal)' % (v, K(cb_amt), K(newsize)), where=w['site'], detail=p.describe())
         if supplied:
             g1 = p.holds(EQ(I(0), REM(c, F(CFG, 'size_increment'))), True)
-            eng.ob(g1 is not None and g1 < w['fpos'], PROP, 'guard', v + ':lot-multiple', '%s: a supplied size is accepted without the lot-multiple test' % v, detail=p.describe())
+            eng.ob(g1 is not None and g1 < w['fpos'], PROP, 'guard', v + ':lot-multiple', '%s: a supplied size is accepted without the lot-multiple test' % v, where=p, detail=p.describe())
             g2 = p.pos(('is', ('rcall', 'checked_sub', (F(ASK, 'size'), c)), 'Ok'))
             if g2 is None: g2 = p.holds(LT(F(ASK, 'size'), c), False)
-            eng.ob(g2 is not None, PROP, 'guard', v + ':not-above-remaining', '%s: a supplied size is accepted without the bound by the remaining size' % v, detail=p.describe())
+            eng.ob(g2 is not None, PROP, 'guard', v + ':not-above-remaining', '%s: a supplied size is accepted without the bound by the remaining size' % v, where=p, detail=p.describe())
             g3 = p.holds(LT(c, I(1)), False)
-            eng.ob(g3 is not None, PROP, 'guard', v + ':size>=1', '%s: a supplied size below 1 is not refused' % v, detail=p.describe())
+            eng.ob(g3 is not None, PROP, 'guard', v + ':size>=1', '%s: a supplied size below 1 is not refused' % v, where=p, detail=p.describe())
     return n
 
 def bid_side(eng, v):
@@ -83,7 +83,7 @@ def bid_side(eng, v):
         fee_paid = has_fee and any(sg == 'pos' and isinstance(y, tuple) and numericish(y) and dom.eq(y, f) for y, sg in p.signs())
         fee_zero = has_fee and any(sg == 'zero' and isinstance(y, tuple) and numericish(y) and dom.eq(y, f) for y, sg in p.signs())
         if has_fee:
-            eng.ob(fee_paid or fee_zero, PROP, 'fee-branch', v, '%s: fee-bearing bid: no branch on "returned fee > 0" found for the pro-rata fee' % v, detail=p.describe())
+            eng.ob(fee_paid or fee_zero, PROP, 'fee-branch', v, '%s: fee-bearing bid: no branch on "returned fee > 0" found for the pro-rata fee' % v, where=p, detail=p.describe())
         if fee_paid: exp.append((bs.qdenom, f, bs.owner))
         trs = transfers(p)
         act = [(t['denom'], t['amount'], t['to']) for t in trs if not t.get('bad')]
@@ -96,7 +96,7 @@ def bid_side(eng, v):
                where=(trs[0].get('call_site') if trs else None), detail=p.describe(),
                sample={'rule': 'transfers', 'request': v, 'expected': [(K(d), K(a), K(t)) for d, a, t in exp]})
         recs = written_record(p, 'bid')
-        eng.ob(len(recs) == 1 and len(p.writes) == 1, PROP, 'one-write', v, '%s: expected exactly one write (the named bid), found %s' % (v, [(w['op'], w['ns']) for w in p.writes]), detail=p.describe())
+        eng.ob(len(recs) == 1 and len(p.writes) == 1, PROP, 'one-write', v, '%s: expected exactly one write (the named bid), found %s' % (v, [(w['op'], w['ns']) for w in p.writes]), where=p, detail=p.describe())
         if len(recs) != 1: continue
         op, key, val, w = recs[0]
         eng.ob(key == M(v, 'id') or key == F(BID, 'id'), PROP, 'key', v, '%s: writes bid key %s, not the request id' % (v, K(key)), where=w['site'])
@@ -128,11 +128,11 @@ def bid_side(eng, v):
             g1 = p.holds(EQ(I(0), REM(c, F(CFG, 'size_increment'))), True)
             eng.ob(g1 is not None and g1 < w['fpos'], PROP, 'guard', v + ':lot-multiple', '%s: a supplied size is accepted without the lot-multiple test' % v, detail=p.describe())
             g3 = p.holds(LT(c, I(1)), False)
-            eng.ob(g3 is not None, PROP, 'guard', v + ':size>=1', '%s: a supplied size below 1 is not refused' % v, detail=p.describe())
+            eng.ob(g3 is not None, PROP, 'guard', v + ':size>=1', '%s: a supplied size below 1 is not refused' % v, where=p, detail=p.describe())
         g2 = p.holds(LT(bs.remB, c), False)
-        eng.ob(g2 is not None or not supplied, PROP, 'guard', v + ':not-above-remaining', '%s: a supplied size is accepted without the bound by the remaining size' % v, detail=p.describe())
+        eng.ob(g2 is not None or not supplied, PROP, 'guard', v + ':not-above-remaining', '%s: a supplied size is accepted without the bound by the remaining size' % v, where=p, detail=p.describe())
         gi = p.holds(EQ(('fract', q), I(0)), True)
-        eng.ob(gi is not None, PROP, 'guard', v + ':returned-quote-integral', '%s: the returned quote price*size is used as an integer without the whole-number test' % v, detail=p.describe())
+        eng.ob(gi is not None, PROP, 'guard', v + ':returned-quote-integral', '%s: the returned quote price*size is used as an integer without the whole-number test' % v, where=p, detail=p.describe())
     return n
 
 def run(eng, tier):
